@@ -169,57 +169,54 @@ CO_ERR CONmtHbConsActivate(CO_HBCONS *hbc, uint16_t time, uint8_t nodeid)
     CO_NMT     *nmt;
     CO_HBCONS  *act;
     CO_HBCONS  *prev;
-    CO_HBCONS  *found = 0;
 
     nmt = &(hbc->Node->Nmt);
+
+    /* a node is monitored by one active consumer, only */
+    if (time > 0) {
+        act = nmt->HbCons;
+        while (act != 0) {
+            if (act->NodeId == nodeid) {
+                return (CO_ERR_OBJ_INCOMPATIBLE);
+            }
+            act = act->Next;
+        }
+    }
+
+    /* stop monitoring of this consumer, if it is active */
     prev = 0;
     act  = nmt->HbCons;
     while (act != 0) {
-        if (act->NodeId == nodeid) {
-            found = act;
-            break;
-        }
-        prev = act;
-        act  = act->Next;
-    }
-
-    if (found != 0) {
-        if (time > 0) {
-            result = CO_ERR_OBJ_INCOMPATIBLE;
-        } else {
+        if (act == hbc) {
+            if (prev == 0) {
+                nmt->HbCons = hbc->Next;
+            } else {
+                prev->Next  = hbc->Next;
+            }
             if (hbc->Tmr >= 0) {
                 err = COTmrDelete(&nmt->Node->Tmr, hbc->Tmr);
                 if (err < 0) {
                     result = CO_ERR_TMR_DELETE;
                 }
             }
-            hbc->Time   = time;
-            hbc->NodeId = nodeid;
-            hbc->Tmr    = -1;
-            hbc->Event  = 0;
-            hbc->State  = CO_INVALID;
-            hbc->Node   = nmt->Node;
-            if (prev == 0) {
-                nmt->HbCons = hbc->Next;
-            } else {
-                prev->Next  = hbc->Next;
-            }
-            hbc->Next   = 0;
+            break;
         }
-    } else {
-        hbc->Time   = time;
-        hbc->NodeId = nodeid;
-        hbc->Tmr    = -1;
-        hbc->Event  = 0;
-        hbc->State  = CO_INVALID;
-        hbc->Node   = nmt->Node;
+        prev = act;
+        act  = act->Next;
+    }
 
-        if (time > 0) {
-            hbc->Next   = nmt->HbCons;
-            nmt->HbCons = hbc;
-        } else {
-            hbc->Next   = 0;
-        }
+    hbc->Time   = time;
+    hbc->NodeId = nodeid;
+    hbc->Tmr    = -1;
+    hbc->Event  = 0;
+    hbc->State  = CO_INVALID;
+    hbc->Node   = nmt->Node;
+    if (time > 0) {
+        /* start monitoring with first received heartbeat */
+        hbc->Next   = nmt->HbCons;
+        nmt->HbCons = hbc;
+    } else {
+        hbc->Next   = 0;
     }
 
     return (result);
